@@ -111,3 +111,103 @@ Theorem C02_session_correct_co :
       run_session pi_of_key (co_ot G gadd gneg smul Gen kdf a sc) rnd key scratch c x y = Ok r r g2e e2g.
 Proof. exact session_correct_co. Qed.
 Print Assumptions C02_session_correct_co.
+
+(* ------------------------------------------------------------------ *)
+(* TERMINATION ("both terminate without error"; the flush discipline of
+   p2p.Conn).  Model: Proto/Live.v — two communication skeletons over two FIFO
+   channels with sender-side write buffers; Send buffers, Flush delivers, a
+   Send MAY flush on its own (buffer full: a schedule choice), Receive blocks
+   until a message is in the channel and fails on a message of another kind.
+   The skeletons are REGENERATED from the Go source of circuit.Garbler,
+   circuit.Evaluator and the OT implementations on every run (Gen/Skel.v,
+   harness/gen_skel.go). *)
+From Mpc Require Import Proto.Live Proto.LiveProof Gen.Skel Proto.LiveInst Proto.LiveInstProof.
+
+(* For every pair of skeletons the checker accepts, EVERY environment (loop
+   counts and branch outcomes as arbitrary functions of label and enclosing
+   iteration indices, the same for both parties), EVERY choice of automatic
+   flushes and EVERY fair schedule (one that can be cut into at least
+   [round_bound] = |garbler actions| + |evaluator actions| rounds each of which
+   schedules both parties): the run ends with both programs finished, every
+   receive having met a message of the expected kind, and all write buffers
+   and channels empty.  Unbounded: induction over schedules and loop counts. *)
+Theorem C02_live_generic :
+  forall g e, well_flushed g e = true ->
+  forall (en : env) (sched : list choice), fair g e en sched -> run_live g e en sched = Done.
+Proof. exact well_flushed_live. Qed.
+Print Assumptions C02_live_generic.
+
+(* what Done says about the final configuration *)
+Theorem C02_live_done_spec :
+  forall g e en sched, run_live g e en sched = Done ->
+  let s := run_cfg sched (init_cfg (flat en [] g) (flat en [] e)) in
+  bad s = false /\ hp (cG s) = [] /\ hb (cG s) = [] /\ hc (cG s) = [] /\
+  hp (cE s) = [] /\ hb (cE s) = [] /\ hc (cE s) = [].
+Proof. exact done_spec. Qed.
+Print Assumptions C02_live_done_spec.
+
+(* the translator classified every use of the connection in the current source *)
+Theorem C02_live_translator_clean : skel_gen_errors = [].
+Proof. exact skel_translator_clean. Qed.
+Print Assumptions C02_live_translator_clean.
+
+(* the skeletons generated from the CURRENT source are accepted, per OT kind
+   (CO; RSA; COT over CO semi-honest; COT over CO malicious) ... *)
+Theorem C02_live_co : well_flushed (garbler_skel KCo) (evaluator_skel KCo) = true.
+Proof. exact live_co. Qed.
+Print Assumptions C02_live_co.
+Theorem C02_live_rsa : well_flushed (garbler_skel KRsa) (evaluator_skel KRsa) = true.
+Proof. exact live_rsa. Qed.
+Print Assumptions C02_live_rsa.
+Theorem C02_live_cot : well_flushed (garbler_skel KCot) (evaluator_skel KCot) = true.
+Proof. exact live_cot. Qed.
+Print Assumptions C02_live_cot.
+Theorem C02_live_cot_malicious :
+  well_flushed (garbler_skel KCotMalicious) (evaluator_skel KCotMalicious) = true.
+Proof. exact live_cot_malicious. Qed.
+Print Assumptions C02_live_cot_malicious.
+
+(* ... hence every session terminates: all circuits (all gate counts, rows per
+   gate, input and output widths = all environments), all interleavings *)
+Theorem C02_session_terminates_co :
+  forall (en : env) (sched : list choice),
+    fair (garbler_skel KCo) (evaluator_skel KCo) en sched ->
+    run_live (garbler_skel KCo) (evaluator_skel KCo) en sched = Done.
+Proof. exact session_terminates_co. Qed.
+Print Assumptions C02_session_terminates_co.
+Theorem C02_session_terminates_rsa :
+  forall (en : env) (sched : list choice),
+    fair (garbler_skel KRsa) (evaluator_skel KRsa) en sched ->
+    run_live (garbler_skel KRsa) (evaluator_skel KRsa) en sched = Done.
+Proof. exact session_terminates_rsa. Qed.
+Print Assumptions C02_session_terminates_rsa.
+Theorem C02_session_terminates_cot :
+  forall (en : env) (sched : list choice),
+    fair (garbler_skel KCot) (evaluator_skel KCot) en sched ->
+    run_live (garbler_skel KCot) (evaluator_skel KCot) en sched = Done.
+Proof. exact session_terminates_cot. Qed.
+Print Assumptions C02_session_terminates_cot.
+Theorem C02_session_terminates_cot_malicious :
+  forall (en : env) (sched : list choice),
+    fair (garbler_skel KCotMalicious) (evaluator_skel KCotMalicious) en sched ->
+    run_live (garbler_skel KCotMalicious) (evaluator_skel KCotMalicious) en sched = Done.
+Proof. exact session_terminates_cot_malicious. Qed.
+Print Assumptions C02_session_terminates_cot_malicious.
+
+(* The converse for the important failure.  A session in miniature (first
+   flight flushed, the evaluator's two SendUint32 + Flush, the reply): with the
+   evaluator's Flush it is accepted; with that ONE Flush deleted it is
+   rejected, and on the alternating schedule (n complete rounds for every n,
+   so fair for every bound; no automatic flush) the run is stuck for ever in
+   the same configuration: the garbler blocked in ReceiveUint32, the two
+   integers in the evaluator's write buffer, the evaluator blocked in
+   ReceiveLabel. *)
+Theorem C02_missing_flush_refuted :
+  exists (g : prog) (e_ok e_bad : prog) (en : env),
+    well_flushed g e_ok = true /\
+    well_flushed g e_bad = false /\
+    forall n, count_rounds false false (alt n) = n /\
+              ((12 <= n)%nat -> run_live g e_bad en (alt n) = Unfinished mini_stuck) /\
+              exists s, run_live g e_bad en (alt n) = Unfinished s.
+Proof. exact missing_flush_refuted. Qed.
+Print Assumptions C02_missing_flush_refuted.
